@@ -64,14 +64,20 @@ ParamsA == [r0 : {0, NY - 1}, c0 : {0, 1}, dr : {0, 1, 2}, dc : {0, 1}, a : {1, 
 ---------------------------------------------------------------------------
 (* Part B *)
 Steps == {<<"T", <<4, 0>>>>, <<"T", <<-4, 8>>>>, <<"T", <<1, 2>>>>, <<"T", <<-1, -2>>>>, <<"T", <<3, -2>>>>, <<"T", <<0, -4>>>>,
-          <<"P", 1>>, <<"P", -1>>, <<"P", 2>>}
+          <<"P", 1>>, <<"P", -1>>, <<"P", 2>>,
+          \* propagation with a tilted beam: the wave also drifts sideways by Tilt per unit distance.  (In the
+          \* replay these kernels are the entries of ONE multi-slice stack of unequal thicknesses, so "the kernel
+          \* of a slice depends on its own thickness only" is part of what equal states demand.)
+          <<"Q", 1>>, <<"Q", -1>>, <<"Q", 2>>}
+Tilt == <<1, -2>>            \* quarter pixels per unit distance
 Init == /\ parA \in (IF Part = "A" THEN ParamsA ELSE {[r0 |-> 0, c0 |-> 0, dr |-> 1, dc |-> 1, a |-> 1, b |-> 1]})
         /\ walk = <<>> /\ ashift = <<0, 0>> /\ adist = 0
 Step == /\ Part = "B" /\ Len(walk) < MaxLen
         /\ \E st \in Steps :
              /\ walk' = Append(walk, st)
              /\ IF st[1] = "T" THEN ashift' = <<ashift[1] + st[2][1], ashift[2] + st[2][2]>> /\ adist' = adist
-                ELSE adist' = adist + st[2] /\ ashift' = ashift
+                ELSE IF st[1] = "P" THEN adist' = adist + st[2] /\ ashift' = ashift
+                ELSE adist' = adist + st[2] /\ ashift' = <<ashift[1] + (st[2] * Tilt[1]), ashift[2] + (st[2] * Tilt[2])>>
         /\ UNCHANGED parA
 Next == Step
 Spec == Init /\ [][Next]_vars
@@ -79,8 +85,9 @@ Spec == Init /\ [][Next]_vars
 \* the abstract state is the sum of the steps, in any order (abelian group)
 RECURSIVE SumT(_), SumP(_)
 SumT(w) == IF w = <<>> THEN <<0, 0>> ELSE LET r == SumT(Tail(w)) IN
-           IF Head(w)[1] = "T" THEN <<Head(w)[2][1] + r[1], Head(w)[2][2] + r[2]>> ELSE r
-SumP(w) == IF w = <<>> THEN 0 ELSE (IF Head(w)[1] = "P" THEN Head(w)[2] ELSE 0) + SumP(Tail(w))
+           IF Head(w)[1] = "T" THEN <<Head(w)[2][1] + r[1], Head(w)[2][2] + r[2]>>
+           ELSE IF Head(w)[1] = "Q" THEN <<(Head(w)[2] * Tilt[1]) + r[1], (Head(w)[2] * Tilt[2]) + r[2]>> ELSE r
+SumP(w) == IF w = <<>> THEN 0 ELSE (IF Head(w)[1] \in {"P", "Q"} THEN Head(w)[2] ELSE 0) + SumP(Tail(w))
 StateIsSum == Part = "B" => (ashift = SumT(walk) /\ adist = SumP(walk))
 
 EmitA == (Part = "A") =>
